@@ -122,6 +122,16 @@ def run(ctx):
                 r.bad("run|quit", "Worker::run does not set the quit flag exactly on WalkState::Quit", fn=g, construct="quit")
         else:
             r.bad("run|quit", "anchor-missing: Worker::run", fn=g)
+        # ... and ONLY then: the flag makes every worker discard whatever it holds, so raising it anywhere else
+        # (e.g. on "all idle") throws away work that was stolen but not yet re-activated
+        qcallers = sorted({c.fn.path for c in facts.callers_of(WK + "::quit_now")})
+        stores = sorted({g_.path for g_ in facts.fns_in(W + "::") for c in g_.calls()
+                         if c.path.endswith("Atomic::store") and mentions_field(ExprBuilder(g_).operand(c.args[0]), WK, "quit_now")})
+        if qcallers == [WK + "::run"] and stores == [WK + "::quit_now"]:
+            r.ok("quit-owner", "quit_now() is called only by Worker::run (on WalkState::Quit); the flag is stored nowhere else", fn=g)
+        else:
+            r.bad("quit-owner", "the quit flag is raised outside the visitor-asked-to-quit path (callers %s, stores %s): workers "
+                  "holding stolen work would drop it" % (qcallers, stores), fn=g, construct="quit-owner")
         for m, variant in (("is_continue", "Continue"), ("is_quit", "Quit")):
             h = facts.fn(W + "::WalkState::" + m)
             ebh = ExprBuilder(h)
